@@ -6,6 +6,8 @@ from fractions import Fraction
 
 import numpy as np
 
+from .. import shapes as S
+
 from ..core import fmt, fmt_list, parse_rats, frac, err_kind, close, exact, floats
 
 ID = "C14"
@@ -34,7 +36,9 @@ def cases(rng, tier):
             c["coef2"] = [str(rng.dyadic(-16, 16, 4)) for _ in range(rng.randint(1, 3))]
             c["normalized"] = rng.random() < 0.5
             c["via"] = rng.choice(["process", "weaver"])
-            c["sin"] = rng.random() < 0.3
+            c["sin"] = False
+            # trends whose values are external to the model (judged by the oracle against y_i + f(x_i))
+            c["ext"] = rng.choice([None, None, "sin", "clamp", "step", "intconst", "boolstep", "view", "npstep"])
         elif kind == "shiftscale":
             c["ops"] = [[rng.choice(["shift_x", "shift_y", "scale_x", "scale_y"]), str(rng.dyadic(-16, 16, 4))]
                         for _ in range(rng.randint(1, 4))]
@@ -73,6 +77,34 @@ def poly(cs):
     return f
 
 
+def ext_fun(kind, args):
+    """(callable handed to the library, pure reference function on floats); thresholds sit inside the argument range so
+    that the first samples fall on one branch and later ones on the other"""
+    p = args[len(args) // 3] if args else 0.0
+    if kind == "sin":
+        return (lambda t: math.sin(3.0 * t)), (lambda t: math.sin(3.0 * t))
+    if kind == "clamp":          # a ramp clamped at zero, written with an int literal
+        return (lambda t: max(0, 0.75 * (t - p))), (lambda t: max(0.0, 0.75 * (t - p)))
+    if kind == "step":           # nothing up to p, then a slope
+        return (lambda t: 0 if t <= p else 0.5 * (t - p)), (lambda t: 0.0 if t <= p else 0.5 * (t - p))
+    if kind == "npstep":
+        return (lambda t: np.where(t <= p, 0, 0.5 * (t - p))), (lambda t: 0.0 if t <= p else 0.5 * (t - p))
+    if kind == "intconst":
+        return (lambda t: 3), (lambda t: 3.0)
+    if kind == "boolstep":       # an indicator
+        return (lambda t: t > p), (lambda t: 1.0 if t > p else 0.0)
+    if kind == "view":           # the identity, handing back a view of its argument when that is an array
+        return (lambda t: np.asarray(t).reshape(np.shape(t))), (lambda t: float(t))
+    raise ValueError(kind)
+
+
+def trend_args(c):
+    x, _ = V(c)
+    xf = floats(x)
+    rng_ = xf[-1] - xf[0]
+    return [v / rng_ for v in xf] if c["normalized"] else xf
+
+
 def request(c):
     x, y = V(c)
     k = c["kind"]
@@ -96,7 +128,7 @@ def run_impl(c):
     from traffic_weaver import Weaver
     from traffic_weaver.process import trend, linear_trend, normalize
     x, y = V(c)
-    xa, ya = np.array(floats(x)), np.array(floats(y))
+    xa, ya = S.arr(floats(x)), S.arr(floats(y))
     k = c["kind"]
     try:
         if k in ("trend", "lintrend"):
@@ -123,9 +155,16 @@ def run_impl(c):
                 r0 = Weaver(xa, ya).trend(lambda t: 0.0, normalized=c["normalized"]).get()[1]
             out = {"x": [float(v) for v in rx], "y1": [float(v) for v in r1], "y2": [float(v) for v in r2],
                    "y0": [float(v) for v in r0], "seen": seen, "caller_y": [float(v) for v in ya]}
-            if c["sin"]:
-                g = lambda t: math.sin(3.0 * t)
-                out["sin"] = [float(v) for v in trend(xa, ya.copy(), g, c["normalized"])[1]]
+            ext = "sin" if c.get("sin") else c.get("ext")
+            if ext:
+                g, _ = ext_fun(ext, trend_args(c))
+                if c["via"] == "process":
+                    out["ext"] = [float(v) for v in trend(xa, ya.copy(), g, c["normalized"])[1]]
+                else:
+                    w2 = Weaver(xa, ya).trend(g, normalized=c["normalized"])
+                    out["ext"] = [float(v) for v in w2.get()[1]]
+                    out["ext_x"] = [float(v) for v in w2.get()[0]]
+                    out["caller_x"] = [float(v) for v in xa]
             return out
         if k == "shiftscale":
             w = Weaver(xa, ya)
@@ -219,8 +258,16 @@ def oracle(c, io):
             return "trend changed x"
         if io["caller_y"] != yf:
             return "trend modified the caller's y array"
-        if "sin" in io and any(abs(io["sin"][i] - (yf[i] + math.sin(3.0 * args[i]))) > tol for i in range(len(xf))):
-            return "sinusoid trend is not added pointwise"
+        ext = "sin" if c.get("sin") else c.get("ext")
+        if ext and "ext" in io:
+            _, ref = ext_fun(ext, args)
+            tol2 = 1e-9 * max(1.0, max(abs(v) for v in io["ext"]), max(abs(v) for v in yf))
+            for i in range(len(xf)):
+                if abs(io["ext"][i] - (yf[i] + ref(args[i]))) > tol2:
+                    return (f"trend '{ext}': y[{i}] = {io['ext'][i]}, y + f(x) = {yf[i] + ref(args[i])} "
+                            f"(f(x_i) = {ref(args[i])} is not added pointwise)")
+            if "ext_x" in io and (io["ext_x"] != xf or io["caller_x"] != xf):
+                return f"trend '{ext}' changed the abscissae (or the caller's x array)"
         return None
     if k == "shiftscale":
         return None   # exact pointwise maps are checked in compare against exact arithmetic
